@@ -114,6 +114,14 @@ CHECKS = {
         text=('c05_reorder_confluent and the C24 theorems show that what the thread count changes (segment grid, number of workers, arrival order at reorder queues) cannot change which neighbours a superblock sees nor the '
               'order in which results are released. The same inputs are encoded with logical processors 0,1,2,3,4,8,16, pinned/unpinned and socket 0; packets and recon must be byte-identical.'),
         note='Partial: whether some coding decision reads the core count or a segment count is observed on the scenarios run (CQP; VBR/CVBR excluded because of finding D15), not proved.'),
+    'C21': dict(
+        category='other', design_ref='DESIGN.md §6 C21',
+        technique='Coq theorem on a model of the input copy and padding regeneration (all sizes, strides, borders) + metamorphic encodes across caller buffer layouts',
+        text=('c21_copy_pad_visible_only: for every picture size, block-aligned size, border widths and stride between the width and the regenerated area, the internal picture after copy + in-place padding regeneration '
+              '(every sample, borders included) is a function of the visible samples only, whatever the stride padding and the previous buffer content. On the real encoder the same visible pictures are submitted tightly packed '
+              'and with strides +1/+8/+32/+64 whose padding holds zeros, 0xFF or random bytes, buffers scribbled and freed right after send_picture; packets and recon must be byte-identical (8 and 10 bit, sizes that are and are not multiples of 8/64).'),
+        note=('Partial: the model is a transcription of the copy/pad structure (row copy of `stride` samples, pad_input_picture(s), generate_padding), tied to the code only through the metamorphic runs; that every later stage '
+              'reads the internal picture only is observed, not proved.')),
 }
 
 NOT_BUILT_REASON = 'check not built yet in this development (work in progress); no claim is made'
